@@ -147,6 +147,10 @@ func (r *dRun) targetObject() sim.Obj {
 	if sc.Finalize {
 		spec["finalize"] = "step"
 	}
+	if len(r.kids)%2 == 0 {
+		// the hook asks to be called again later (resyncAfterSeconds); parked by the recording queue
+		spec["resyncAfter"] = int64(30 + len(r.kids))
+	}
 	t["spec"] = spec
 	return t
 }
